@@ -294,11 +294,17 @@ class ImageWriter:
         return False
 
     def _create_unique_image_name(self, image: LTImage, ext: str) -> Tuple[str, str]:
-        name = image.name + ext
+        # image names come from the document: keep the file inside outdir by
+        # turning path separators (and NUL) into plain characters
+        image_name = image.name.replace("\0", "_")
+        for sep in (os.sep, os.altsep):
+            if sep:
+                image_name = image_name.replace(sep, "_")
+        name = image_name + ext
         path = os.path.join(self.outdir, name)
         img_index = 0
         while os.path.exists(path):
-            name = "%s.%d%s" % (image.name, img_index, ext)
+            name = "%s.%d%s" % (image_name, img_index, ext)
             path = os.path.join(self.outdir, name)
             img_index += 1
         return name, path
